@@ -318,7 +318,7 @@ func genC17(c *Ctx) {
 		emit("wrong-length", k1, pk1, p1[:47], k2, pk2, p2)
 		emit("wrong-length-2", k1, pk1, p1, k2, pk2, append(append([]byte{}, p2...), 0))
 		// identity keys
-		idk := c.identityKeys()[it%4]
+		idk := pickIdentity(c, it)
 		zero := big.NewInt(0)
 		emit("identity-key-1", zero, idk, inf, k2, pk2, p2)
 		emit("identity-key-2", k1, pk1, p1, zero, idk, inf)
